@@ -149,6 +149,51 @@ func r171Vocabulary(c *an.Ctx) {
 				}
 			}
 		}
+		// the table form of the same switch: the parameter indexes a package-level map literal
+		ast.Inspect(f.Decl.Body, func(nd ast.Node) bool {
+			ix, ok := nd.(*ast.IndexExpr)
+			if !ok || paramIndex(f, ix.Index) < 0 {
+				return true
+			}
+			mv, ok := an.ObjOf(info, ix.X).(*types.Var)
+			if !ok || mv.Parent() != mv.Pkg().Scope() {
+				return true
+			}
+			for _, file := range f.Pkg.Syntax {
+				ast.Inspect(file, func(x ast.Node) bool {
+					vs, ok := x.(*ast.ValueSpec)
+					if !ok {
+						return true
+					}
+					for i, nm := range vs.Names {
+						if info.Defs[nm] != types.Object(mv) || i >= len(vs.Values) {
+							continue
+						}
+						cl, ok := an.Unparen(vs.Values[i]).(*ast.CompositeLit)
+						if !ok {
+							continue
+						}
+						for _, el := range cl.Elts {
+							kv, ok := el.(*ast.KeyValueExpr)
+							if !ok {
+								continue
+							}
+							lbl, ok1 := an.ConstString(info, kv.Key)
+							name, ok2 := an.ConstString(info, kv.Value)
+							if !ok1 || !ok2 {
+								continue
+							}
+							n++
+							if cn := strings.TrimPrefix(name, "goa."); gc[cn] != lbl {
+								probs = append(probs, fmt.Sprintf("format %q is emitted as %s whose value is %q", lbl, name, gc[cn]))
+							}
+						}
+					}
+					return true
+				})
+			}
+			return true
+		})
 		if n < len(gv) {
 			probs = append(probs, fmt.Sprintf("only %d of %d formats have a constant name", n, len(gv)))
 		}
@@ -343,6 +388,9 @@ func r174Regexes(c *an.Ctx) {
 					}
 					n++
 					construct := "pkg." + nm.Name
+					if v, ok := p.TypesInfo.Defs[nm].(*types.Var); ok {
+						construct = "pkg." + an.CanonGlobalName(v) // the reference name when the variable was renamed
+					}
 					re, err := syntax.Parse(src, syntax.Perl)
 					if err != nil {
 						c.Failf(rule, construct, call.Pos(), "regular expression does not parse: %v", err)
@@ -499,7 +547,7 @@ func r175PatternCache(c *an.Ctx) {
 	// no other function touches the cache
 	var others []string
 	pk := c.Pkg("pkg")
-	obj := pk.Types.Scope().Lookup("knownPatterns")
+	obj := an.LookupGlobal(pk.Types, "knownPatterns")
 	owners := map[types.Object]bool{}
 	for _, g := range c.WithNewHelpers(f) {
 		owners[g.Obj] = true // ValidatePattern and the helpers extracted from it
